@@ -132,7 +132,10 @@ class TlcResult:
             m = re.search(r"Invariant (\S+) is violated", l)
             if m:
                 out.append(m.group(1))
-            if "Temporal properties were violated" in l:
+            m = re.search(r"Temporal property (\S+) was violated", l)
+            if m:
+                out.append(m.group(1))
+            elif "Temporal properties were violated" in l:
                 out.append("<temporal>")
             m = re.search(r"Action property (\S+) is violated", l)
             if m:
